@@ -465,10 +465,11 @@ pub fn run(seed: u64, ntraces: usize) {
                             true
                         }
                         PKind::Props(ac, kind) => {
-                            let which = if force_props_ok { 3 } else { r.below(4) };
+                            let which = if force_props_ok { 3 } else { r.below(6) };
+                            let other_ty: &[u8] = *r.pick(&[&b"NonFungibleESDT"[..], b"SemiFungibleESDT", b"MetaESDT", b"DynamicNonFungibleESDT", b"NonFungibleESDTv2", b""]);
                             let (forged, resj) = match which {
                                 0 => (TxResult { result_status: 4, result_message: "no such token".to_string(), ..TxResult::empty() }, Value::Null),
-                                1 => (TxResult { result_values: vec![b"Name".to_vec(), b"NonFungibleESDT".to_vec(), vec![], vec![], vec![], b"NumDecimals-0".to_vec()], ..TxResult::empty() }, json!([hx(b"Name"), hx(b"NonFungibleESDT"), hx(b"NumDecimals-0")])),
+                                1 | 2 => (TxResult { result_values: vec![b"Name".to_vec(), other_ty.to_vec(), vec![], vec![], vec![], b"NumDecimals-0".to_vec()], ..TxResult::empty() }, json!([hx(b"Name"), hx(other_ty), hx(b"NumDecimals-0")])),
                                 _ => (TxResult { result_values: vec![b"TokName".to_vec(), b"FungibleESDT".to_vec(), vec![], vec![], vec![], b"NumDecimals-18".to_vec()], ..TxResult::empty() }, json!([hx(b"TokName"), hx(b"FungibleESDT"), hx(b"NumDecimals-18")])),
                             };
                             let cb = async_callback_tx_input(ac, &forged, &g.w.r.blockchain_mock.vm.builtin_functions);
